@@ -226,6 +226,35 @@ func c05R2(c *Ctx) {
 		return ok && calleeID(ci.Common()) == "(*trzsz.TrzszFilter).addDragFiles"
 	})
 	c.check(hit == nil, "sendInput$1/flush-verbatim", c.pos(g.Pos()), "the pending path buffer is flushed verbatim unless it was a drag", "buffered input can be dropped by the delayed flush", c.pathStr(path)...)
+	// the pending buffer is a transient claim: the delayed flush gives it up (sets it nil) on every path, and whoever
+	// creates it starts that flush before returning — otherwise every later keystroke is appended to it and never sent
+	{
+		isBufStore := func(in ssa.Instruction, wantNil bool) bool {
+			st, ok := in.(*ssa.Store)
+			if !ok {
+				return false
+			}
+			n, _ := fieldAddrName(st.Addr)
+			return n == "TrzszFilter.dragInputBuffer" && isNilConst(st.Val) == wantNil
+		}
+		hitN, pathN := reachFrom(g.Blocks[0], 0, isReturn, func(in ssa.Instruction) bool { return isBufStore(in, true) })
+		c.check(hitN == nil, "sendInput$1/gives-the-buffer-up", c.pos(g.Pos()), "the delayed flush clears the pending buffer on every path", "the delayed flush can end with the pending buffer still set: all later input is appended to it and never reaches the server", c.pathStr(pathN)...)
+		nSet := 0
+		eachInstr(f, func(in ssa.Instruction) {
+			if !isBufStore(in, false) {
+				return
+			}
+			nSet++
+			hitS, pathS := reachAvoid(in, isReturn, func(x ssa.Instruction) bool {
+				gi, ok := x.(*ssa.Go)
+				return ok && gi.Call.StaticCallee() == g
+			})
+			c.check(hitS == nil, "sendInput/pending-buffer=>flush-started", c.ipos(in), "creating the pending buffer always starts its delayed flush", "the pending buffer can be created without its delayed flush being started: input is held back for good", c.pathStr(pathS)...)
+		})
+		if nSet == 0 {
+			c.undecided("sendInput/pending-buffer=>flush-started", "no creation of the pending buffer found")
+		}
+	}
 	// drag detection only claims input when it found existing files
 	for _, ci := range callsIn(f, idIs("(*trzsz.TrzszFilter).addDragFiles")) {
 		_, nonNil := factNil(factsAt(ci.Block()), ci.Common().Args[1])
